@@ -9,7 +9,8 @@ Mirrors (pinned tree)
 * `utils.ensure_listlike`, `utils.is_singleton` on the `d` and `above` arguments (`DSpec`, `ASpec`);
 * the *dispatch* of `Curve.derivative` / `Surface.derivative` (`curveOutcome`, `surfaceOutcome`):
   which calls reach the generic `SplineObject.derivative`, which reach a closed form, which fall
-  through the branch table (zero-initialised result) — on top of the shared
+  through the branch table (zero-initialised result; only odd-length tuples since `derivs` is
+  converted to a tuple) — on top of the shared
   `Obj.derivativeGeneric / curveDerivativeRational / surfaceDerivativeRational`;
 * `SplineObject.get_derivative_spline`, `SplineObject.tangent`, `Surface.normal`,
   `Curve.binormal`, `Curve.normal` up to the final normalisation (the model returns the
@@ -60,6 +61,12 @@ def ensureListlike (x : DSpec) (dups : ℕ) : DSpec :=
   | tup l => if dups ≤ l.length then tup l else lst ((padLast l dups).getD [])
   | lst l => lst ((padLast l dups).getD [])
 
+/-- `tuple(x)` for a sequence (never applied to an int by the code). -/
+def toTuple : DSpec → DSpec
+  | int n => int n
+  | tup l => tup l
+  | lst l => tup l
+
 /-- `d[0]` (only used on non-singletons). -/
 def head? : DSpec → Option ℕ
   | int _ => none
@@ -81,6 +88,11 @@ def norm (a : ASpec) (dups : ℕ) : List Bool :=
   match a with
   | bool b => List.replicate dups b
   | seq l => (padLast l dups).getD []
+
+/-- `if not is_singleton(above): above = above[0]` (`Curve.derivative`): `none` = IndexError. -/
+def selfOrHead : ASpec → Option Bool
+  | bool b => some b
+  | seq l => l.head?
 
 /-- Python truthiness of the raw argument (what Cython's `bint from_right` conversion sees). -/
 def truthy : ASpec → Bool
@@ -113,11 +125,11 @@ def curveOutcome (rational : Bool) (d : DSpec) : Outcome :=
     else .closed [n]
 
 /-- Dispatch of `Surface.derivative(u, v, d, above, tensor)`:
-    `derivs = ensure_listlike(d, self.pardim)`;
+    `derivs = tuple(ensure_listlike(d, self.pardim))`;
     `if not self.rational or np.sum(derivs) < 2 or np.sum(derivs) > 3: return super().derivative(u, v, d=derivs, …)`;
     then the `derivs == (a,b)` table (seven live entries of total order 2 and 3). -/
 def surfaceOutcome (rational : Bool) (d : DSpec) : Outcome :=
-  let derivs := d.ensureListlike 2
+  let derivs := (d.ensureListlike 2).toTuple
   let s := derivs.items.sum
   if !rational || s < 2 || s > 3 then .generic (derivs.ensureListlike 2).items
   else
@@ -155,28 +167,45 @@ end Tensor
 
 namespace Obj
 
-/-- `Curve.derivative` with the dispatch function `f` (the model uses `curveOutcome`). -/
+/-- `Curve.derivative` with the dispatch function `f` (the model uses `curveOutcome`).  In the
+    closed-form section `above` is replaced by `above[0]` when it is a sequence (IndexError when empty). -/
 def curveDerivativeWith (f : Bool → DSpec → Outcome) (o : Obj K) (tol : K) (ts : List K) (d : DSpec)
     (above : ASpec) (tensor : Bool) : PyM (Tensor K) :=
   match f o.rational d with
   | .generic l => o.derivativeGeneric tol [ts] l (above.norm 1) tensor
-  | .closed [n] => .ok (o.curveDerivativeRational tol ts n above.truthy)
-  | .closed _ => .error .other
-  | .zeros => .ok (Tensor.zeros [ts.length, o.dimension])
-  | .raises e => .error e
-
-/-- `Surface.derivative` with the dispatch function `f` (the model uses `surfaceOutcome`). -/
-def surfaceDerivativeWith (f : Bool → DSpec → Outcome) (o : Obj K) (tol : K) (us vs : List K) (d : DSpec)
-    (above : ASpec) (tensor : Bool) : PyM (Tensor K) :=
-  match f o.rational d with
-  | .generic l => o.derivativeGeneric tol [us, vs] l (above.norm 2) tensor
-  | .closed [a, b] =>
-      if !tensor ∧ us.length ≠ vs.length then .error .value   -- `einsum` refuses the operands
-      else o.surfaceDerivativeRational tol us vs a b above.truthy tensor true
+  | .closed [n] =>
+      match above.selfOrHead with
+      | none => .error .index
+      | some a => .ok (o.curveDerivativeRational tol ts n a)
   | .closed _ => .error .other
   | .zeros =>
-      if !tensor ∧ us.length ≠ vs.length then .error .value
-      else o.surfaceDerivativeRational tol us vs 0 0 above.truthy tensor false
+      match above.selfOrHead with
+      | none => .error .index
+      | some _ => .ok (Tensor.zeros [ts.length, o.dimension])
+  | .raises e => .error e
+
+/-- `Surface.derivative` with the dispatch function `f` (the model uses `surfaceOutcome`).
+    `above = ensure_listlike(above, self.pardim)` is executed before the guard; the closed-form section
+    reads `above[0]`, `above[1]` (IndexError for an empty sequence). -/
+def surfaceDerivativeWith (f : Bool → DSpec → Outcome) (o : Obj K) (tol : K) (us vs : List K) (d : DSpec)
+    (above : ASpec) (tensor : Bool) : PyM (Tensor K) :=
+  let ab := above.norm 2
+  match f o.rational d with
+  | .generic l => o.derivativeGeneric tol [us, vs] l ((ASpec.seq ab).norm 2) tensor
+  | .closed [a, b] =>
+      match ab with
+      | fu :: fv :: _ =>
+        if !tensor ∧ us.length ≠ vs.length then .error .value   -- `einsum` refuses the operands
+        else o.surfaceDerivativeRational tol us vs a b fu fv tensor
+      | _ => .error .index
+  | .closed _ => .error .other
+  | .zeros =>
+      match ab with
+      | _ :: _ :: _ =>
+        if !tensor ∧ us.length ≠ vs.length then .error .value
+        else if !tensor then .error .index               -- `d0ud0v[:,:,-1]` precedes the branch table
+        else .ok (Tensor.zeros [us.length, vs.length, o.dimension])
+      | _ => .error .index
   | .raises e => .error e
 
 /-- `obj.derivative(*params, d=…, above=…, tensor=…)` through the class of the object
